@@ -51,6 +51,11 @@ RULES = {
 # --------------------------------------------------------------------------------------------------
 def gen_case(prop: str, ctx: Ctx, rng: random.Random) -> dict:
     ref = ctx.instant()
+    if prop == 'C04' and rng.random() < 0.3:
+        c = gen_case('C06', ctx, rng)
+        if rng.random() < 0.5:
+            c = {'expr': c['expr'], 'probe': [c['chain'][0], c['chain'][0] + rng.choice([HOUR, 90 * MIN, 2 * HOUR, 30 * MIN])], 'fracs': []}
+        return c
     if prop == 'C04':
         e = ctx.expr(rng.choice([0, 1, 1, 2, 3]), ref)
         mode = rng.random()
@@ -59,6 +64,11 @@ def gen_case(prop: str, ctx: Ctx, rng: random.Random) -> dict:
         if mode < 0.7:
             return {'expr': e, 'chain': [ref, 6], 'fracs': fracs(rng)}
         return {'expr': e, 'queries': [ref, ref - 1, ref + 1, ctx.instant(), ref], 'fracs': fracs(rng)}
+    if prop == 'C05' and rng.random() < 0.2:
+        c = gen_case('C06', ctx, rng)
+        if rng.random() < 0.5:
+            c['expr'][4] = ctx.filt(1, True, True)
+        return c
     if prop == 'C05':
         e = sanitize(ctx.base_expr(0.7, ref), rng)
         if rng.random() < 0.5:
@@ -69,7 +79,8 @@ def gen_case(prop: str, ctx: Ctx, rng: random.Random) -> dict:
              rng.choice(['skip', 'earlier', 'later', 'twice']), None]
         if ctx.affected and rng.random() < 0.85:
             t, lo, hi, _ = rng.choice(ctx.affected)
-            ref = t - rng.choice([2 * DAY, DAY + HOUR, 3 * HOUR, 36 * HOUR, 0, 1, MIN])
+            ref = t - rng.choice([2 * DAY, DAY + HOUR, 3 * HOUR, 36 * HOUR, 0, 1, MIN, -MIN, -10 * MIN, -29 * MIN, -31 * MIN,
+                                  -HOUR, -90 * MIN, 30 * MIN, -2 * HOUR])
             if rng.random() < 0.7:
                 e[1] = rng.choice([lo, (lo + hi) // 2, hi - 1, hi, lo - 1, lo + MIN, hi - MIN, lo + 30 * NS + 5]) % DAY
         return {'expr': e, 'chain': [ref, 6], 'fracs': []}
@@ -423,12 +434,12 @@ def run(prop: str, tier: str, seed: int, scratch: Path, replay=None, model_ok=Tr
 
 def search(prop: str, seed: int, scratch: Path) -> list:
     rng = random.Random(f'search-{prop}-{seed}')
-    zones = ZONES_QUICK + ZONES_MORE[:8]
+    zones = ZONES_QUICK + ZONES_MORE[:6]
     tables = _tables(zones)
     per_zone = {}
     for z in zones:
         ctx = Ctx(rng, tables[z])
-        per_zone[z] = [dict(gen_case(prop, ctx, rng), zone=z) for _ in range(400 if prop != 'C16' else 6)]
+        per_zone[z] = [dict(gen_case(prop, ctx, rng), zone=z) for _ in range(150 if prop != 'C16' else 6)]
     with ThreadPoolExecutor(max_workers=coqrun.JOBS) as ex:
         outs = list(ex.map(lambda z: (z, _impl_zone(z, per_zone[z], scratch)), zones))
     found = []
